@@ -37,6 +37,8 @@ func (p params) name() string {
 		return fmt.Sprintf("store-conc/%v/nopayload%v", p.Ops, p.NoPayload)
 	case "options":
 		return fmt.Sprintf("options/first-%s/P%d", p.Close, p.P)
+	case "aliasreuse":
+		return fmt.Sprintf("aliasreuse/P%d", p.P)
 	}
 	if p.Refuse != "" {
 		return fmt.Sprintf("conn/close-%s/refuse-%s/F%d/P%d", p.Close, p.Refuse, p.F, p.P)
@@ -157,6 +159,10 @@ func scenarios(tier string) []vlib.Scenario {
 	// the options of one stream do not leak into a stream opened without them (before or after)
 	add(params{Kind: "options", Close: "tuned"})
 	add(params{Kind: "options", Close: "plain"})
+	// the broker hands the alias of a stream that is being closed to a stream that is being opened at the same time
+	add(params{Kind: "aliasreuse"})
+	add(params{Kind: "aliasreuse", P: 1})
+	add(params{Kind: "aliasreuse", P: 2})
 	// a refused resume of one stream (response without alias) must not disturb the stream that holds alias 0
 	add(params{Kind: "conn", Close: "none", Refuse: "upU", F: 1})
 	add(params{Kind: "conn", Close: "none", Refuse: "upR", F: 1})
@@ -184,6 +190,12 @@ func config(sc vlib.Scenario, tier string) vsched.Config {
 		cfg.Preempt, cfg.Switch, cfg.Stall = 0, 0, -1 // unbounded: every interleaving of the lock operations
 		cfg.Budget[vsched.BudP] = 0
 	}
+	if p.Kind == "aliasreuse" {
+		cfg.Scope = func(site string) bool {
+			return strings.Contains(site, "SendUpstreamCloseRequest") || strings.Contains(site, "SendUpstreamOpenRequest") || strings.Contains(site, "(*ClientConn).openUpstream") || strings.Contains(site, "(*Conn).OpenUpstream")
+		}
+		return cfg
+	}
 	cfg.Scope = func(site string) bool {
 		return strings.Contains(site, "inmemSentStorage") || strings.Contains(site, "readUpstreamChunkAckLoop") || strings.Contains(site, "readDownstreamChunkLoop") || strings.Contains(site, "(*Upstream).run") || strings.Contains(site, "SendUpstreamCloseRequest") || strings.Contains(site, "SendDownstreamCloseRequest")
 	}
@@ -191,6 +203,8 @@ func config(sc vlib.Scenario, tier string) vsched.Config {
 }
 
 type world struct {
+	arCloseErr, arOpenErr, arWriteErr, arFlushErr error
+	arAcks, arChunks                              int
 	liveBeforeClosing bool
 	optCloseErr    error
 	optCloseDur    time.Duration
@@ -640,6 +654,59 @@ func (w *world) optionsMain() {
 	w.Phase = "done"
 }
 
+// aliasReuseMain: stream A is closed while stream C is opened; the broker, having closed A, gives A's alias to C.
+func (w *world) aliasReuseMain() {
+	s := &sim.Script{ReuseUpAlias: true}
+	if err := w.Connect(s); err != nil {
+		return
+	}
+	ctx, cancel := kit.Ctx(30 * time.Second)
+	defer cancel()
+	b, _ := w.OpenUp(ctx, "B", iscp.WithUpstreamFlushPolicyNone(), iscp.WithUpstreamQoS(message.QoSReliable))
+	a, _ := w.OpenUp(ctx, "A", iscp.WithUpstreamFlushPolicyNone(), iscp.WithUpstreamQoS(message.QoSReliable))
+	if a == nil || b == nil {
+		w.Phase = "setup-failed"
+		return
+	}
+	w.Phase = "traffic"
+	var wg vsched.WaitGroup
+	wg.Add(1)
+	vsched.Go("h:close-A", func() {
+		defer wg.Done()
+		cctx, ccancel := kit.Ctx(10 * time.Second)
+		defer ccancel()
+		w.arCloseErr = a.U.Close(cctx)
+	})
+	c, err := w.OpenUp(ctx, "C", iscp.WithUpstreamFlushPolicyNone(), iscp.WithUpstreamQoS(message.QoSReliable))
+	wg.Wait()
+	w.arOpenErr = err
+	if c != nil {
+		w.arWriteErr = c.Write(ctx, kit.IDA, "c1")
+		fctx, fcancel := kit.Ctx(5 * time.Second)
+		w.arFlushErr = c.U.Flush(fctx)
+		fcancel()
+		vsched.Quiesce()
+		w.arAcks = len(c.AckHook)
+		for _, u := range w.B.Ups {
+			if u.Open.SessionID == "C" {
+				w.arChunks = len(u.Chunks)
+			}
+		}
+	}
+	w.liveBeforeClosing = w.B.Live() != nil
+	w.Phase = "closing"
+	for _, u := range w.Ups {
+		xctx, xcancel := kit.Ctx(3 * time.Second)
+		u.U.Close(xctx)
+		xcancel()
+	}
+	yctx, ycancel := kit.Ctx(5 * time.Second)
+	w.Conn.Close(yctx)
+	ycancel()
+	w.B.Stop()
+	w.Phase = "done"
+}
+
 func (w *world) main() {
 	switch w.p.Kind {
 	case "store-seq":
@@ -648,6 +715,8 @@ func (w *world) main() {
 		w.storeConc()
 	case "options":
 		w.optionsMain()
+	case "aliasreuse":
+		w.aliasReuseMain()
 	default:
 		w.connMain()
 	}
@@ -662,6 +731,21 @@ func run(sc vlib.Scenario, cfg vsched.Config) (*vsched.Result, vlib.Verdict) {
 		return res, v
 	}
 	switch w.p.Kind {
+	case "aliasreuse":
+		if w.ConnErr != nil || w.Phase == "setup-failed" {
+			v.Inconclusive = "setup failed"
+			return res, v
+		}
+		if res.Outcome != vsched.Completed {
+			v.Fail("C07.blocked", "aliasreuse/"+w.Phase, "the alias-reuse scenario never finished (phase %s)", w.Phase)
+			return res, v
+		}
+		// nothing disturbs the connection: A closes, C opens, and C's chunk is sent, acknowledged and reported
+		if w.arCloseErr != nil || w.arOpenErr != nil || w.arWriteErr != nil || w.arFlushErr != nil || w.arChunks != 1 || w.arAcks != 1 {
+			v.Fail("C07.alias-reuse", fmt.Sprintf("close=%s/open=%s/write=%s/flush=%s/chunks=%d/acks=%d", kit.ErrKind(w.arCloseErr), kit.ErrKind(w.arOpenErr), kit.ErrKind(w.arWriteErr), kit.ErrKind(w.arFlushErr), w.arChunks, w.arAcks),
+				"stream A was closed while stream C was opened and the broker gave A's alias to C: Close=%v Open=%v, then C's Write=%v Flush=%v, %d of 1 chunks of C reached the broker and %d of 1 results were reported to C's hook", w.arCloseErr, w.arOpenErr, w.arWriteErr, w.arFlushErr, w.arChunks, w.arAcks)
+		}
+		v.Outcome = fmt.Sprintf("chunks=%d acks=%d", w.arChunks, w.arAcks)
 	case "options":
 		if w.ConnErr != nil || w.Phase == "setup-failed" {
 			v.Inconclusive = "setup failed"
